@@ -444,6 +444,28 @@ def lifted_trees():
     return out
 
 
+def ambient_contracts(sh, which):
+    """Run the repository's own 278 tests (unedited) with the icontract post-conditions of vf/contracts.py installed
+    on the real functions, so that every *internal* call made by the library is watched too."""
+    import os, sys, json, subprocess, tempfile
+    rep = os.path.join(tempfile.gettempdir(), 'contract_report.%d.json' % os.getpid())
+    env = dict(os.environ, VERIF_CONTRACT_REPORT=rep, PYTHONPATH=common.VERIF, PYTHONDONTWRITEBYTECODE='1')
+    p = subprocess.run([sys.executable, '-m', 'pytest', '-q', '-p', 'no:cacheprovider', '-p', 'vf.pytest_contracts'], cwd=common.REPO, env=env,
+                       stdout=subprocess.PIPE, stderr=subprocess.STDOUT)
+    if not os.path.exists(rep):
+        sh.extra['ambient_error'] = 'contract run produced no report: %s' % p.stdout.decode(errors='replace')[-400:]
+        return
+    r = json.load(open(rep))
+    os.unlink(rep)
+    sh.extra['ambient_counters'] = r['counters']
+    sh.counters['contract_evaluations:' + which] += r['counters'].get(which if which != 'modint' else 'modint_init', 0)
+    sh.evaluations += r['counters'].get('expr_simp_compared' if which == 'expr_simp' else 'modint_init', 0)
+    for key, detail, canon in r['violations']:
+        if key.startswith('ambient/' + which):
+            sh.violation(key, 'during the repository\'s own tests: %s' % detail, {'tree': canon, 'ambient': True})
+    sh.sample({'ambient contracts during the repository tests': r['counters'], 'pytest': p.stdout.decode(errors='replace').strip().splitlines()[-1] if p.stdout else ''})
+
+
 def shards(tier, seed):
     out = []
     for w in (1, 8, 16, 32, 64):
@@ -451,6 +473,7 @@ def shards(tier, seed):
             out.append(('tmpl', w, part))
     out.append(('slicecomp',))
     out.append(('lifted',))
+    out.append(('ambient',))
     n = 64 if tier == 'quick' else 1600
     out += [('rand', i) for i in range(n)]
     return out
@@ -470,6 +493,8 @@ def run_shard(shard, tier, seed):
     elif kind == 'slicecomp':
         for i, (fam, t) in enumerate(slice_compose_templates()):
             check_tree(sh, t, ('sc', i), 'tmpl:%s' % fam, exhaustive8=512)
+    elif kind == 'ambient':
+        ambient_contracts(sh, 'expr_simp')
     elif kind == 'lifted':
         for i, (h, t) in enumerate(lifted_trees()):
             check_tree(sh, t, ('l', i), 'lifted')
@@ -493,6 +518,11 @@ def finalize(merged, tier, seed):
     out = {'coverage': cov}
     if merged.counters.get('rewrite_steps', 0) == 0:
         out['inconclusive'] = ['the step counter on _expr_simp never fired: monitor not installed on the real function']
+    if merged.extra.get('ambient_error'):
+        out.setdefault('inconclusive', []).append(merged.extra['ambient_error'])
+    elif merged.counters.get('contract_evaluations:expr_simp', 0) == 0:
+        out.setdefault('inconclusive', []).append('the ambient expr_simp contract was never evaluated during the repository tests (bound references bypass it?)')
+    cov['ambient_contract_evaluations'] = merged.extra.get('ambient_counters', {})
     return out
 
 
